@@ -453,6 +453,56 @@ def analyse():
                                "expect": {"kind": "double_signal"}})
     except MirError as e:
         out["errors"].append("m-c18-signals: %s" % e)
+    # ---------------------------------------------------------------- C16: defaults
+    try:
+        funcs = split_functions(mir)
+
+        def const_return(fn):
+            body = funcs.get(fn)
+            if body is None:
+                raise MirError("default function %s not found in the MIR dump" % fn)
+            vals = re.findall(r"_0 = const (\w+);", body)
+            if len(vals) != 1 or "switchInt" in body:
+                raise MirError("%s does not simply return a constant" % fn)
+            return vals[0] == "true"
+        uc = z3.BoolVal(const_return("default_use_cache"))
+        st = z3.BoolVal(const_return("default_rust_structured"))
+        ext_body = funcs.get("default_rust_extensions")
+        if ext_body is None:
+            raise MirError("default_rust_extensions not found")
+        exts = re.findall(r'= const "([^"]*)";', ext_body)
+        with open(os.path.join(REPO, "src/config/context.rs")) as f:
+            ctx_src = f.read().split("#[cfg(test)]")[0]
+
+        def field_attr(struct, field):
+            m = re.search(r"pub struct %s\s*\{(.*?)\n\}" % struct, ctx_src, flags=re.S)
+            if not m:
+                raise MirError("struct %s not found" % struct)
+            mm = re.search(r"((?:\s*(?:///[^\n]*|#\[[^\n]*\])\n)*)\s*pub %s\s*:" % field, m.group(1))
+            if not mm:
+                raise MirError("field %s.%s not found" % (struct, field))
+            return re.findall(r"#\[serde\((.*?)\)\]", mm.group(1))
+        wiring = {
+            "Config.use_cache": field_attr("Config", "use_cache") == ['default = "default_use_cache"'],
+            "RustConfig.structured": field_attr("RustConfig", "structured") == ['default = "default_rust_structured"'],
+            "RustConfig.extensions": field_attr("RustConfig", "extensions") == ['default = "default_rust_extensions"'],
+            "Config.source_dir has no default (a configuration without it is invalid)": field_attr("Config", "source_dir") == [],
+            "Cache.next_reference_id has no default (a lock without it cannot be parsed)": field_attr("Cache", "next_reference_id") == [],
+        }
+        s_ = z3.Solver()
+        s_.add(z3.Not(z3.And(uc, z3.Not(st))))
+        consts_ok = str(s_.check()) == "unsat" and exts == ["rs"]
+        bad = [k for k, v in wiring.items() if not v]
+        ok = consts_ok and not bad
+        out["results"].append({"name": "m-c16-defaults", "verdict": "holds" if ok else "violated", "seconds": 0.0, "twin": "n/a",
+                               "bound": "MIR of the three serde default functions (constants returned) and the #[serde(..)] attributes of the "
+                                        "Config/RustConfig/Cache fields in src/config/context.rs; serde's own behaviour is trusted",
+                               "witness": None if ok else {"text": None, "why": "defaults differ from the guide: use_cache=%s structured=%s extensions=%s; wiring problems: %s"
+                                                           % (z3.is_true(uc), z3.is_true(st), exts, bad)},
+                               "note": "use_cache default %s, structured default %s, extensions default %s" % (z3.is_true(uc), z3.is_true(st), exts),
+                               "expect": {"kind": "defaults"}})
+    except MirError as e:
+        out["errors"].append("m-c16-defaults: %s" % e)
     out["wall_s"] = round(time.time() - t0, 2)
     return out
 
